@@ -806,6 +806,9 @@ func (c *trCtx) composite(x *ast.CompositeLit) string {
 				v = "GoZero.zero"
 			}
 			parts = append(parts, trMangle(f.Name())+" := "+v)
+			if trCapFieldOf(ty, f.Name()) {
+				parts = append(parts, trMangle(f.Name())+"_cap := "+c.capGiven(x, i, ok)) // (trans_units_tablerender.go)
+			}
 		}
 		return "({ " + strings.Join(parts, ", ") + " } : " + lt + ")"
 	case *types.Slice:
@@ -1097,6 +1100,10 @@ func (c *trCtx) builtin(name string, x *ast.CallExpr) string {
 			els = append(els, c.expr(a))
 		}
 		return "(" + c.expr(x.Args[0]) + " ++ [" + strings.Join(els, ", ") + "])"
+	case "cap":
+		if r, ok := c.capBuiltin(x); ok {
+			return r // of a field whose capacity is tracked (trans_units_tablerender.go)
+		}
 	case "new":
 		return c.perfNew(x)
 	case "make":
